@@ -652,18 +652,24 @@ def gen_case(rng, cid, py_builtins, stats):
         return len(spaces) - 1
 
     # ---- structure ----
+    # builtin_child (repaired in /repo): child spaces and ItemSpace parameters are sometimes named like a built-in
+    # (parameters: a built-in the Gallina evaluator knows or one it does not, see props/C15.py e_case)
+    def bi_name(plain, *builtin):
+        return r.choice(builtin) if r.random() < 0.3 else plain
+
     a = new_space("A", None)
     if r.random() < 0.6:
-        new_space("C", a)
+        new_space(bi_name("C", "ord"), a)
     if r.random() < 0.6:
         new_space("B", None, bases=[a])
     if r.random() < 0.65:
-        ps = [["n", None]] + ([["q", r.randint(1, 4)]] if r.random() < 0.5 else []) if r.random() < 0.8 else [["n", None], ["q", None]]
+        pn, pq = bi_name("n", "id", "abs"), bi_name("q", "pow", "len")
+        ps = [[pn, None]] + ([[pq, r.randint(1, 4)]] if r.random() < 0.5 else []) if r.random() < 0.8 else [[pn, None], [pq, None]]
         p = new_space("P", None, params=ps)
         if r.random() < 0.6:
-            new_space("Q", p, params=([["v", None]] if r.random() < 0.5 else None))
+            new_space("Q", p, params=([[bi_name("v", "hash", "sorted"), None]] if r.random() < 0.5 else None))
         if r.random() < 0.3:
-            new_space("R", p)
+            new_space(bi_name("R", "vars"), p)
     if r.random() < 0.4:
         new_space("D", None)
     mrefs = []
